@@ -80,6 +80,11 @@ class ConstPool:
             exact = Fraction(f)
         if exact.denominator == 1:
             return exact
+        if 0 < abs(f) < 1e-12:
+            # residue of a floating-point cancellation in CasADi's constant folding (t - DT on a numeric grid, table entries
+            # that are zero up to rounding): kept with its exact binary value; recorded so that a randomly generated instance
+            # whose comparison fails in its presence is reported as undecidable (IEEE rounding is outside every claim)
+            self.tiny = max(getattr(self, 'tiny', 0.0), abs(f))
         if f == int(f) and abs(f) < 2 ** 53 and not isinstance(c, Fraction):
             return Fraction(int(f))
         key = (f, exact if isinstance(c, Fraction) else None)
